@@ -68,8 +68,15 @@ class Values:
         pool = [k / 64.0 for k in range(-60, 61) if k != 0]
         rng.shuffle(pool)
         self.pool = pool
+        # in a third of the cases one of the values handed out is zero (0.0 or the integer 0): a legitimate value that is falsy
+        self.zero_at = rng.randrange(8) if rng.random() < 0.33 else None
+        self.zero = rng.choice([0.0, 0])
+        self.count = 0
 
     def new(self):
+        self.count += 1
+        if self.zero_at is not None and self.count - 1 == self.zero_at:
+            return self.zero
         return self.pool.pop()
 
 
@@ -357,6 +364,15 @@ def check_add_param(ctx, rng, vals, replay_extra=None):
     use_exp = rng.random() < 0.5
     sx = vals.new()
     ex = vals.new()
+    # zero (float or int) is a legitimate solver default / explicit value / definition default; at most one of them is zero so that
+    # the value still identifies its source
+    z = rng.random()
+    if z < 0.25:
+        sx = rng.choice([0.0, 0])
+    elif z < 0.37:
+        ex = rng.choice([0.0, 0])
+    elif z < 0.47:
+        dx = rng.choice([0.0, 0])
     nested = rng.random() < 0.4
     replay = {"kind": "add_param", "d0": d0, "dx": dx, "dy": dy, "set": sx if use_set else None, "explicit": ex if use_exp else None, "nested": nested,
               "implicit_definition": rng.random() < 0.4}
